@@ -438,3 +438,14 @@ Theorem C14_check_heatseq_sound : forall col uni rlim clim fmn fmx ops lines mp 
       pad <> [] /\ Forall (fun x => x = SP) pad.
 Proof. exact check_heatseq_sound. Qed.
 Print Assumptions C14_check_heatseq_sound.
+
+(* "the '(n more)' notes equal the number of rows ... not shown", sparkline, in EVERY frame of one
+   renderer instance: whatever earlier frames left on the terminal and in the table writer, when
+   rows are hidden the footer line (the line after the table's last active row) is the note with
+   the number of rows hidden in THIS frame — the note is not a one-time state transition. *)
+Theorem C14_more_counts_spark : forall col uni m rnd fmt rlim clim st a t' tm' off,
+  spark_write_table col uni m rnd fmt rlim clim st a = Ok (t', tm', off) ->
+  (rlim < length (a_rows a))%nat ->
+  nth_error tm' (tw_active t') = Some (more_note col (Z.of_nat (length (skipn rlim (a_rows a))))) /\ off = 1%nat.
+Proof. exact spark_more_rows. Qed.
+Print Assumptions C14_more_counts_spark.
